@@ -185,7 +185,8 @@ type c27Path struct {
 	occ      map[string]int
 	active   map[*ssa.Function]int
 	frameSeq int
-	cur      []ssa.Instruction // the instruction being executed at each call depth
+	memAt    map[string]ssa.Instruction // where a map entry was last assigned
+	cur      []ssa.Instruction          // the instruction being executed at each call depth
 	// outcome
 	end     string // return | panic | cutoff | undecided
 	why     string
@@ -897,11 +898,24 @@ func (p *c27Path) branch(f *c27Frame, x *ssa.If) bool {
 		if d, ok := p.cons[key]; ok {
 			return d != c.neg
 		}
-		fk := fmt.Sprintf("%p/%d", x, f.id)
+		// loop cut: the same undecided test taken again in the same activation
+		// with no known loop counter having moved (a counted loop over a table
+		// makes progress and is followed to its end)
+		var prog uint64
+		for v, val := range f.env {
+			if ph, ok := v.(*ssa.Phi); ok && val.k == c27Int {
+				var hn uint64 = 1469598103934665603
+				for _, ch := range ph.Name() {
+					hn = (hn ^ uint64(ch)) * 1099511628211
+				}
+				prog += hn * uint64(val.n+7)
+			}
+		}
+		fk := fmt.Sprintf("%p/%d/%x", x, f.id, prog)
 		p.forkCnt[fk]++
 		gk := fmt.Sprintf("%p", x)
 		p.forkCnt[gk]++
-		if p.forkCnt[fk] > 2 || p.forkCnt[gk] > 8 {
+		if p.forkCnt[fk] > 2 || p.forkCnt[gk] > 200 {
 			panic(c27End{"cutoff"})
 		}
 		d := true // outcome of the condition as written
@@ -1034,7 +1048,12 @@ func (p *c27Path) instr(f *c27Frame, in ssa.Instruction) {
 		}
 	case *ssa.MapUpdate:
 		m := p.get(f, x.Map)
-		p.mem[c27Render(m)+"["+c27Render(p.get(f, x.Key))+"]"] = p.get(f, x.Value)
+		mk := c27Render(m) + "[" + c27Render(p.get(f, x.Key)) + "]"
+		p.mem[mk] = p.get(f, x.Value)
+		if p.memAt == nil {
+			p.memAt = map[string]ssa.Instruction{}
+		}
+		p.memAt[mk] = p.where(x)
 	case *ssa.Slice:
 		f.env[x] = p.slice(f, x)
 	case *ssa.MakeSlice:
